@@ -47,6 +47,12 @@ type QEv struct {
 	W   int
 }
 
+type genEv struct {
+	Seq  uint64
+	Task int
+	ID   string
+}
+
 type Crash struct {
 	Seq  uint64
 	Task int
@@ -59,7 +65,8 @@ type Recorder struct {
 	calls   []*Call
 	fns     []FnEv
 	qevs    []QEv
-	lastGen string
+	gens    []genEv
+	purgers []int // tasks currently inside a Purge call
 	inq     [][]int // per queue index (root world numbering): subs currently inside (wrapper/adapters)
 	unknownEntries []string
 	ackViol []Viol
@@ -131,10 +138,6 @@ func (r *World) enter(wd *World, v int, j Job[int]) *Sub {
 	s.Entries = append(s.Entries, seq)
 	s.EntryTask = append(s.EntryTask, simrt.CurID())
 	s.Worker = append(s.Worker, wd.cidx)
-	s.IDSeen = j.ID()
-	if sp, ok := j.(StatusProvider); ok {
-		s.StatusInFn = sp.Status()
-	}
 	rec.fns = append(rec.fns, FnEv{Seq: seq, Sub: v, Enter: true, Task: simrt.CurID(), W: wd.cidx})
 	wd.inflight++
 	if wd.inflight > wd.maxInflight {
@@ -142,6 +145,11 @@ func (r *World) enter(wd *World, v int, j Job[int]) *Sub {
 	}
 	if s.ad != nil {
 		s.ad.markFn(s, false)
+	}
+	// library calls last: they contain yield points
+	s.IDSeen = j.ID()
+	if sp, ok := j.(StatusProvider); ok {
+		s.StatusInFn = sp.Status()
 	}
 	return s
 }
@@ -179,11 +187,27 @@ func (r *Recorder) qEnq(wd *World, q, sub int, ok bool) {
 
 func (r *Recorder) qDeq(wd *World, q, sub int) {
 	seq := r.stamp()
-	r.qevs = append(r.qevs, QEv{Seq: seq, Q: q, Sub: sub, K: 2, W: wd.cidx})
+	// a dequeue issued from inside a Purge call removes the job like a purge does
+	purging := false
+	me := simrt.CurID()
+	for _, t := range r.purgers {
+		if t == me {
+			purging = true
+		}
+	}
+	k := 2
+	if purging {
+		k = 3
+		r.probes[pbPurgeRemoved]++
+	}
+	r.qevs = append(r.qevs, QEv{Seq: seq, Q: q, Sub: sub, K: k, W: wd.cidx})
 	if sub >= 0 && sub < len(r.wd.subs) {
 		s := r.wd.subs[sub]
-		s.Deq = seq
-
+		if purging {
+			s.Purged = seq
+		} else {
+			s.Deq = seq
+		}
 	}
 	r.qslot(q)
 	for i, x := range r.inq[q] {
